@@ -28,15 +28,20 @@ def handlers : List (String × Handler) := [
       let x ← parseRats x
       pure (showRat (Tfl.Linear.call k b lo hi x))
     | _ => none),
+  -- reply: `<project …> <normSq pre> <l2Skips pre> <order_ok>`; the first token is `Tfl.Linear.project`
+  -- itself, the function of the composite theorem `Tfl.C06.accepted_project` (for order 2 it is the
+  -- pre-normalised column: `Tfl.C06.project_l2_eq_pre`; the harness divides by the real root unless
+  -- `l2Skips` — the guard decided in ℚ — says the normalisation is skipped)
   ("lin.project", fun args => match args with
     | [m, md, rd, lo, hi, ord, w] => do
       let m ← parseInts m; let md ← parsePairs md; let rd ← parsePairs rd
       let lo ← parseOptRats lo; let hi ← parseOptRats hi; let ord ← parseOrd ord; let w ← parseRats w
       let pre := Tfl.Linear.projectPre m md rd lo hi w
-      let full := pre.map (Tfl.Linear.normalize ord)
+      let full := Tfl.Linear.project m md rd lo hi ord w
       let nsq := match pre with | .ok p => showRat (Tfl.Linear.normSq p) | .error _ => "0"
+      let skip := match pre with | .ok p => showBool (Tfl.Linear.l2Skips p) | .error _ => "0"
       let ok := orderOk (Tfl.Linear.swapPairs md) w.length && orderOk (Tfl.Linear.swapPairs rd) w.length
-      pure s!"{showExceptRats full} {nsq} {showBool ok}"
+      pure s!"{showExceptRats full} {nsq} {skip} {showBool ok}"
     | _ => none),
   ("cat.project", fun args => match args with
     | [lo, hi, cs, w] => do
